@@ -495,13 +495,6 @@ func run(c Case) *kit.Result {
 	return res
 }
 
-func min(a, b int) int {
-	if a < b {
-		return a
-	}
-	return b
-}
-
 func TestC07(t *testing.T) {
 	kit.Main(t, kit.Spec[Case]{
 		ID: "C07", Level: "exploration",
